@@ -232,6 +232,7 @@ func runC09(c *Ctx) {
 	c09PanicSources(c, "C09.2")
 	c09ScannerRefill(c, "C09.3")
 	ruleVendoredEqualsUpstream(c, "C09.4", vendoredScanner)
+	ruleNoSelfFormat(c, "C09.5", "sql")
 }
 
 func c09Progress(c *Ctx, rule string) {
